@@ -1,4 +1,5 @@
 import LunaVerif.Model.Usb2.DataReceiver
+import LunaVerif.Core.UtmiTrack
 /-!
 # C02 — USB2 data packets are accepted iff their CRC16 is valid, payload intact
 
@@ -431,6 +432,19 @@ theorem receiver_events_exact (c : Config) (hc : c.delay ≤ c.counterMax + 1) (
     observed c init (renderAll ps) ++ pending (final c init (renderAll ps))
       = ps.flatMap (fun p => rxOutcome p.bytes) := by
   rw [observed_trace, (trace_exact c hc ps init rfl hw hg).1]; simp [pending, init]
+
+/-- The same, with the packets read off the RAW cycle history by the packet tracker of
+`Core/UtmiTrack.lean` (`packetsOf`: maximal `rx_active` runs and their `rx_valid` bytes): what the
+receiver does is a function of the packets on the wire alone. -/
+theorem receiver_events_of_raw_history (c : Config) (hc : c.delay ≤ c.counterMax + 1) (ps : List RxPacket)
+    (hw : ∀ p ∈ ps, p.wf) (hg : ∀ p ∈ ps, gapOk c p) :
+    observed c init (renderAll ps) ++ pending (final c init (renderAll ps))
+      = (packetsOf none (renderAll ps)).flatMap rxOutcome := by
+  rw [receiver_events_exact c hc ps hw hg, (packetsOf_renderAll ps hw).1]
+  clear hw hg
+  induction ps with
+  | nil => rfl
+  | cons p ps ih => simp [List.flatMap_cons, ih]
 
 /-- No state leaks: at every packet boundary of a legal history the receiver FSM is in IDLE (and
 `packet_exact` holds from every such state, whatever the other registers contain). -/
